@@ -23,6 +23,7 @@ class Sched:
         self.steplog = []           # (actor, lineno) per step
         self.results = {}
         self.deadlock = False
+        self.atomic = False         # while set, line events do not count as steps (harness-side atomic section)
 
     # -- called from traced threads
     def _tracer(self, name):
@@ -38,6 +39,8 @@ class Sched:
         return [a for a in self.order if a not in self.done and (a not in self.blocked or self.blocked[a]())]
 
     def _yield(self, name, lineno):
+        if self.atomic:
+            return
         with self.cv:
             self.step += 1
             self.steplog.append((name, lineno))
